@@ -101,73 +101,6 @@ DeadGames ==
             co \in {P1, PR}, io \in {PR, P2, P1}, k \in {2, 3, 4},
             tg \in [1..4 -> Tg], wv \in {<<1,1,1,1>>, <<1,2,1,3>>, <<2,1,3,1>>}, cr \in {0, 1} }
 
------------------------------------------------------------------------------
-(* Histories (C10): call scripts of length <= 3 over {same object A, fresh  *)
-(* object} x {prune, no prune} on stopping games.                           *)
-Scripts == UNION {[1..k -> [obj : {"A", "new"}, prune : BOOLEAN]] : k \in 1..3}
-
-\* a distribution whose float probabilities do not add up to exactly 1.0 (0.69 + 0.3 + 0.01)
-OddSum ==
-    [n |-> 5, owner |-> <<PR, PR, P1, PR, PR>>, reward |-> <<1, 2, 0, 0, 0>>,
-     tr |-> << <<Tr("", 69, 2), Tr("", 30, 3), Tr("", 1, 4)>>, <<Tr("", 7, 5), Tr("", 2, 4), Tr("", 1, 5)>>,
-               <<Tr("a", 0, 5), Tr("b", 0, 4)>>, <<Tr("", 1, 4)>>, <<Tr("", 1, 5)>> >>, final |-> <<5>>]
-\* the initial state cannot reach the final state (pruned: no solution; unpruned: solved)
-NoWay ==
-    [n |-> 4, owner |-> <<P2, PR, PR, PR>>, reward |-> <<1, 1, 0, 0>>,
-     tr |-> << <<Tr("a", 0, 2), Tr("b", 0, 3)>>, <<Tr("", 1, 3), Tr("", 1, 4)>>, <<Tr("", 1, 3)>>, <<Tr("", 1, 4)>> >>,
-     final |-> <<4>>]
-
-HistBase(i) ==
-    IF i % 3 = 0 THEN RandomElement(DeadGames)
-    ELSE IF i % 11 = 1 THEN OddSum ELSE IF i % 11 = 2 THEN NoWay ELSE StopGame(SizeOf(i))
-HistFamilyRaw ==
-    [i \in 1..K |-> LET g == TLCEval(HistBase(i))
-                    IN  TLCEval([fam |-> "hist", g |-> g, stopping |-> IsStopping(g),
-                                 acyclic |-> AcyclicOn(g, States(g)),
-                                 calls |-> RandomElement(Scripts)])]
-\* every script of length 2 on the two fixed games (object reuse across modes, both orders)
-HistFixed ==
-    LET ss == SetToSeq({q \in Scripts : Len(q) = 2})
-        mk(g, q) == [fam |-> "hist", g |-> g, stopping |-> TRUE, acyclic |-> TRUE, calls |-> q]
-    IN  [i \in 1..(2 * Len(ss)) |-> IF i <= Len(ss) THEN mk(NoWay, ss[i]) ELSE mk(OddSum, ss[i - Len(ss)])]
-HistFamily == SelectSeq(HistFamilyRaw, LAMBDA d : d.stopping) \o HistFixed
-
-\* the caller EDITS its description between calls (same Python objects, new content):
-\* g2 is g with one transition redirected; calls before and after the edit
-EditOf(g) ==
-    LET s == RandomElement(1..g.n)
-        k == RandomElement(DOMAIN g.tr[s])
-        t == RandomElement(1..g.n)
-    IN  [g EXCEPT !.tr[s][k].t = t]
-EditFamilyRaw ==
-    [i \in 1..K |-> LET g  == TLCEval(HistBase(i))
-                        g2 == TLCEval(EditOf(g))
-                    IN  TLCEval([fam |-> "edit", g |-> g, g2 |-> g2,
-                                 stopping |-> IsStopping(g) /\ IsStopping(g2) /\ g2 # g,
-                                 acyclic |-> AcyclicOn(g, States(g)),
-                                 calls |-> RandomElement(Scripts)])]
-EditFamily == SelectSeq(EditFamilyRaw, LAMBDA d : d.stopping)
-
-(* Presentations (C13): a game, a random renumbering / reordering /        *)
-(* renaming, and the transformed game.                                     *)
-Renamings == { <<>>,
-               << <<"a", "b">>, <<"b", "a">> >>,
-               << <<"a", "zz">>, <<"b", "a1">>, <<"c", "_c">>, <<"x", "y">>, <<"y", "x">> >> }
-RandRel(g) ==
-    LET p == IF g.n = 1 THEN <<>> ELSE RandomElement(Permutations(2..g.n))
-    IN  [kind |-> "perm",
-         pi |-> [s \in 1..g.n |-> IF s = 1 THEN 1 ELSE p[s]],
-         rho |-> [s \in 1..g.n |-> RandomElement(Permutations(1..Len(g.tr[s])))],
-         alpha |-> RandomElement(Renamings)]
-PermBase(i) ==
-    IF i % 3 = 0 THEN RandomElement(DeadGames)
-    ELSE IF i % 3 = 1 THEN StopGame(SizeOf(i)) ELSE RandGame(SizeOf(i))
-PermFamily ==
-    [i \in 1..K |-> LET g == TLCEval(PermBase(i))
-                        rel == TLCEval(RandRel(g))
-                    IN  TLCEval([fam |-> "perm", g |-> g, stopping |-> IsStopping(g), solvemode |-> Terminating(g),
-                                 acyclic |-> AcyclicOn(g, States(g)),
-                                 rel |-> rel, h |-> TransformGame(g, rel)])]
 
 -----------------------------------------------------------------------------
 (* Tiny: a state whose value is positive but far below the solver's        *)
@@ -368,5 +301,79 @@ TieGames ==
     IN  { mk(o, xy, three, z, rw) :
             o \in {P1, P2}, xy \in XY, three \in BOOLEAN, z \in Zrow,
             rw \in {<<0, 0>>, <<1, 1>>, <<1, 2>>, <<2, 1>>} }
+
+-----------------------------------------------------------------------------
+(* Histories (C10): call scripts of length <= 3 over {same object A, fresh  *)
+(* object} x {prune, no prune} on stopping games.                           *)
+Scripts == UNION {[1..k -> [obj : {"A", "new"}, prune : BOOLEAN]] : k \in 1..3}
+
+\* a distribution whose float probabilities do not add up to exactly 1.0 (0.69 + 0.3 + 0.01)
+OddSum ==
+    [n |-> 5, owner |-> <<PR, PR, P1, PR, PR>>, reward |-> <<1, 2, 0, 0, 0>>,
+     tr |-> << <<Tr("", 69, 2), Tr("", 30, 3), Tr("", 1, 4)>>, <<Tr("", 7, 5), Tr("", 2, 4), Tr("", 1, 5)>>,
+               <<Tr("a", 0, 5), Tr("b", 0, 4)>>, <<Tr("", 1, 4)>>, <<Tr("", 1, 5)>> >>, final |-> <<5>>]
+\* the initial state cannot reach the final state (pruned: no solution; unpruned: solved)
+NoWay ==
+    [n |-> 4, owner |-> <<P2, PR, PR, PR>>, reward |-> <<1, 1, 0, 0>>,
+     tr |-> << <<Tr("a", 0, 2), Tr("b", 0, 3)>>, <<Tr("", 1, 3), Tr("", 1, 4)>>, <<Tr("", 1, 3)>>, <<Tr("", 1, 4)>> >>,
+     final |-> <<4>>]
+
+HistBase(i) ==
+    IF i % 3 = 0 THEN RandomElement(DeadGames)
+    ELSE IF i % 11 = 1 THEN OddSum ELSE IF i % 11 = 2 THEN NoWay ELSE StopGame(SizeOf(i))
+HistFamilyRaw ==
+    [i \in 1..K |-> LET g == TLCEval(HistBase(i))
+                    IN  TLCEval([fam |-> "hist", g |-> g, stopping |-> IsStopping(g),
+                                 acyclic |-> AcyclicOn(g, States(g)),
+                                 calls |-> RandomElement(Scripts)])]
+\* every script of length 2 on the two fixed games (object reuse across modes, both orders)
+HistFixed ==
+    LET ss == SetToSeq({q \in Scripts : Len(q) = 2})
+        mk(g, q) == [fam |-> "hist", g |-> g, stopping |-> TRUE, acyclic |-> TRUE, calls |-> q]
+    IN  [i \in 1..(2 * Len(ss)) |-> IF i <= Len(ss) THEN mk(NoWay, ss[i]) ELSE mk(OddSum, ss[i - Len(ss)])]
+HistFamily == SelectSeq(HistFamilyRaw, LAMBDA d : d.stopping) \o HistFixed
+
+\* the caller EDITS its description between calls (same Python objects, new content):
+\* g2 is g with one transition redirected; calls before and after the edit
+EditOf(g) ==
+    LET s == RandomElement(1..g.n)
+        k == RandomElement(DOMAIN g.tr[s])
+        t == RandomElement(1..g.n)
+    IN  [g EXCEPT !.tr[s][k].t = t]
+EditFamilyRaw ==
+    [i \in 1..K |-> LET g  == TLCEval(HistBase(i))
+                        g2 == TLCEval(EditOf(g))
+                    IN  TLCEval([fam |-> "edit", g |-> g, g2 |-> g2,
+                                 stopping |-> IsStopping(g) /\ IsStopping(g2) /\ g2 # g,
+                                 acyclic |-> AcyclicOn(g, States(g)),
+                                 calls |-> RandomElement(Scripts)])]
+EditFamily == SelectSeq(EditFamilyRaw, LAMBDA d : d.stopping)
+
+(* Presentations (C13): a game, a random renumbering / reordering /        *)
+(* renaming, and the transformed game.                                     *)
+Renamings == { <<>>,
+               << <<"a", "b">>, <<"b", "a">> >>,
+               << <<"a", "zz">>, <<"b", "a1">>, <<"c", "_c">>, <<"x", "y">>, <<"y", "x">> >> }
+\* a random permutation of lo..hi by ranking random keys (Permutations(S) explodes beyond 9 elements)
+RandPerm(lo, hi) ==
+    LET key == TLCEval([s \in lo..hi |-> RandomElement(1..1000000)])
+    IN  [s \in lo..hi |-> lo + Cardinality({t \in lo..hi : key[t] < key[s] \/ (key[t] = key[s] /\ t < s)})]
+RandRel(g) ==
+    LET p == IF g.n = 1 THEN <<>> ELSE TLCEval(RandPerm(2, g.n))
+    IN  [kind |-> "perm",
+         pi |-> [s \in 1..g.n |-> IF s = 1 THEN 1 ELSE p[s]],
+         rho |-> [s \in 1..g.n |-> RandomElement(Permutations(1..Len(g.tr[s])))],
+         alpha |-> RandomElement(Renamings)]
+PermBase(i) ==
+    IF i % 9 = 4 THEN RandomElement(TinySlow)
+    ELSE IF i % 9 = 7 THEN RandomElement(TinyChains)
+    ELSE IF i % 3 = 0 THEN RandomElement(DeadGames)
+    ELSE IF i % 3 = 1 THEN StopGame(SizeOf(i)) ELSE RandGame(SizeOf(i))
+PermFamily ==
+    [i \in 1..K |-> LET g == TLCEval(PermBase(i))
+                        rel == TLCEval(RandRel(g))
+                    IN  TLCEval([fam |-> "perm", g |-> g, stopping |-> IsStopping(g), solvemode |-> Terminating(g),
+                                 acyclic |-> AcyclicOn(g, States(g)),
+                                 rel |-> rel, h |-> TransformGame(g, rel)])]
 
 =============================================================================
